@@ -81,6 +81,10 @@ MUTANTS = [
      "AegeanTools/source_finder.py",
      "s_lims = [0.8 * min(sx, pixbeam.b * FWHM2CC),",
      "s_lims = [0.8 * sx,", "C05-R7"),
+    ("default regroup length in degrees (seed C05c)",
+     "AegeanTools/source_finder.py",
+     "regroup_eps = 4*np.mean([s.a/60 for s in sources])",
+     "regroup_eps = 4*np.mean([s.a/3600 for s in sources])", "C05-R8"),
 ]
 TWINS = [
     ("vary via local", "AegeanTools/source_finder.py",
@@ -226,6 +230,12 @@ def run(ctx):
     # ---------------------------------------------------------------- R3
     r3(ctx, prog, rf)
     r7(ctx, prog, rf, adds)
+    # blends are fitted jointly: default grouping length (shared with C19)
+    from .c19 import default_linking_length
+    ctx.rule("C05-R8", "blended sources are fitted jointly: the default "
+             "regrouping length is a multiple of the mean major axis in "
+             "arcmin, as the following conversion expects")
+    default_linking_length(ctx, prog, "C05-R8")
     # ---------------------------------------------------------------- R4
     ctx.rule("C05-R4", "writers of parameter values between params.add and "
              "result_to_components: frame shift by the matching axis offset "
